@@ -266,3 +266,67 @@ Section Reattach.
     rewrite attach_do_loop_app, attach_do_loop_stmts, attach_do_loop_comments. reflexivity.
   Qed.
 End Reattach.
+
+(* ------------------------------------------------------------------ the drivers, second pass *)
+Definition stmt_content (s : stmt) : stmt_kind * option string := match s with St k eol _ _ => (k, eol) end.
+Definition stmt_pos (s : stmt) : Z * Z := match s with St _ _ a b => (a, b) end.
+Definition triple_pos (x : doc * Z * Z) : Z * Z := (snd (fst x), snd x).
+Definition triple_doc (x : doc * Z * Z) : doc := fst (fst x).
+
+Lemma relayout_docs : forall l start, map triple_doc (relayout start l) = map triple_doc l.
+Proof.
+  induction l as [|[[d s] e] rest IH]; intros start; [reflexivity|].
+  destruct rest as [|[[d2 s2] e2] rest']; [reflexivity|].
+  change (relayout start ((d, s, e) :: (d2, s2, e2) :: rest'))
+    with ((d, start, (start + doc_height d)%Z) ::
+          relayout (start + doc_height d + gap_newlines e s2)%Z ((d2, s2, e2) :: rest')).
+  cbn [map]. now rewrite IH.
+Qed.
+
+Lemma triples_eq : forall l1 l2 : list (doc * Z * Z),
+  map triple_doc l1 = map triple_doc l2 -> map triple_pos l1 = map triple_pos l2 -> l1 = l2.
+Proof.
+  induction l1 as [|[[d s] e] r IH]; intros [|[[d' s'] e'] r'] Hd Hp; try discriminate; [reflexivity|].
+  cbn in Hd, Hp. injection Hd as -> Hd. injection Hp as -> -> Hp. f_equal. now apply IH.
+Qed.
+
+Section Second.
+  Variable e2s : expr -> string.
+  Variable np : binop -> expr -> bool -> bool.
+  Variable rk : string -> string.
+
+  Lemma lib_stmt_doc_content : forall mw s t, stmt_content s = stmt_content t ->
+    triple_doc (lib_stmt e2s np rk mw s) = triple_doc (lib_stmt e2s np rk mw t).
+  Proof. intros mw [k eol a b] [k' eol' a' b'] H. cbn in H. injection H as -> ->. reflexivity. Qed.
+  Lemma lib_stmt_pos : forall mw s, triple_pos (lib_stmt e2s np rk mw s) = stmt_pos s.
+  Proof. intros mw [k eol a b]. reflexivity. Qed.
+
+  (* If the first output re-parses to statements q with the same content as p (same
+     expressions with the same comment attachment, same end-of-line comments) at the positions
+     the text gives them, the second pass of the library driver prints the same text. *)
+  Theorem lib_driver_second_pass : forall mw p q,
+    map stmt_content q = map stmt_content p ->
+    map stmt_pos q = map triple_pos (relayout 1 (map (lib_stmt e2s np rk mw) p)) ->
+    format_lib e2s np rk mw q = format_lib e2s np rk mw p.
+  Proof.
+    intros mw p q Hc Hp.
+    assert (E : map (lib_stmt e2s np rk mw) q = relayout 1 (map (lib_stmt e2s np rk mw) p)).
+    { apply triples_eq.
+      - rewrite relayout_docs, !map_map. clear Hp. revert p Hc.
+        induction q as [|s r IH]; intros [|t r'] Hc; try discriminate; [reflexivity|].
+        cbn [map] in *. injection Hc as Hs Hr. f_equal; [now apply lib_stmt_doc_content|now apply IH].
+      - rewrite <- Hp, map_map. apply map_ext. intros s. apply lib_stmt_pos. }
+    unfold format_lib.
+    destruct p as [|t r']; destruct q as [|s r]; try discriminate; [reflexivity|].
+    rewrite E, spacing_idempotent. reflexivity.
+  Qed.
+
+  (* the CLI driver does not look at positions *)
+  Theorem cli_driver_second_pass : forall p q,
+    map stmt_content q = map stmt_content p -> format_cli e2s np rk q = format_cli e2s np rk p.
+  Proof.
+    unfold format_cli. induction p as [|t r' IH]; intros [|s r] Hc; try discriminate; [reflexivity|].
+    cbn [map flat_map] in *. injection Hc as Hs Hr. rewrite (IH r Hr). f_equal.
+    destruct s as [k eol a b], t as [k' eol' a' b']. cbn in Hs. injection Hs as -> ->. reflexivity.
+  Qed.
+End Second.
